@@ -176,6 +176,14 @@ pub fn run(args: &[String]) -> i32 {
             }
         }
     }
+    // boundaries of the accumulator and of the 96-bit mantissa
+    for s in ["340282366920938463463374607431768211455", "340282366920938463463374607431768211456", "-340282366920938463463374607431768211455",
+              "170141183460469231731687303715884105727", "170141183460469231731687303715884105728", "-170141183460469231731687303715884105728",
+              "340,282,366,920,938,463,463,374,607,431,768,211,356", "3402823669209384634633746074317682114.55",
+              "79228162514264337593543950335", "79228162514264337593543950336", "-79228162514264337593543950335", "7922816251426433759354395033.5",
+              "0.0000000000000000000000000001", "0.00000000000000000000000000001"] {
+        probe(s, &mut evaluated, &mut bad);
+    }
     for s in ["1,234", "12,345.678", "0,000.05", "-0,000.05", "1,234,567.000001", "999,999,999,999,999,999,999,999,999",
               "79,228,162,514,264,337,593,543,950,335", "79,228,162,514,264,337,593,543,950,336", "1.2.3", "1.5,000", "12,50", "1,234,", "", "-", ".", "-.", ".5", "5.", "-.5"] {
         probe(s, &mut evaluated, &mut bad);
